@@ -90,9 +90,9 @@ CHECKS['C10'] = dict(
    note=COMMON_NOTE + '; rounding-scaled residual bounds and the round trip for well-conditioned A are measured by the oracle; one known finding (F21)', ref='DESIGN.md §5 C10')
 
 CHECKS['C19'] = dict(
-   technique='Coq proof (panic-aware lexer/Pratt-parser/fold model: totality with fuel; full simulation between precedence climbing and a stratified reference reader incl. juxtaposition, prefix minus and functions; fold soundness without premise; display round trip on a fragment) + exhaustive token-sequence correspondence through a cfg hook + independent Python reference reader/evaluator',
-   text='6 theorems: c19_total (all number types: never a panic, fuel never runs out), c19_parser_reads and c19_parser_reads_folded (every parse over numbers, variables, constants, functions, + - * / ^ !, unary minus, parentheses and juxtaposition denotes the conventional reading, all lengths and nestings), c19_fold_sound (folding preserves every defined value) and c19_fold_idempotent, c19_display_roundtrip_partial (number-free fully parenthesised trees incl. constants and prefix minus reread exactly); binding powers tied to the source table through Gen/Consts.v; every token sequence over the 15 token kinds up to length 4 (readable ones to 5; thorough 5/6) plus random trees and arbitrary strings run against the real code',
-   note=COMMON_NOTE + '; three known findings remain, all in Display (F16e residue, F16f residue, F16j: parentheses/juxtaposition lost when printing)', ref='DESIGN.md §5 C19')
+   technique='Coq proof (panic-aware lexer/Pratt-parser/fold/render model: totality with fuel; full simulation between precedence climbing and a stratified reference reader incl. juxtaposition, prefix minus and functions; fold soundness without premise; render is the inverse of the parser: display round trip up to value for every number-free text and tree) + exhaustive token-sequence correspondence through a cfg hook + independent Python reference reader/evaluator',
+   text='8 theorems: c19_total (all number types: never a panic, fuel never runs out), c19_parser_reads and c19_parser_reads_folded (every parse over numbers, variables, constants, functions, + - * / ^ !, unary minus, parentheses and juxtaposition denotes the conventional reading, all lengths and nestings), c19_fold_sound and c19_fold_idempotent, c19_display_roundtrip_partial / _trees (rendering a parsed tree and parsing the text again denotes the same function at every point, for all text without number tokens and all number-free trees incl. functions, prefix minus, postfix, juxtaposition, % and explicit cdot), c19_display_roundtrip_exact (fully parenthesised fragment); binding powers tied to the source table through Gen/Consts.v; every token sequence over the 15 token kinds up to length 4 (readable ones to 5; thorough 5/6) plus random trees and arbitrary strings run against the real code',
+   note=COMMON_NOTE + '; the display round trip for trees containing numbers (shortest-float printing, 4x / x^2 shorthands) is measured by the check on every case, not proved', ref='DESIGN.md §5 C19')
 NOT_APPLICABLE = {}
 ALL = ['C%02d' % i for i in range(1, 21)]
 PENDING_REASON = 'not claimed yet in this revision: model/proof under construction (see DESIGN.md §9); no check is registered so nothing is asserted'
